@@ -48,6 +48,14 @@ def argsToIPLD : Node → Node
   | .map kvs => Immut.argsNode kvs
   | n => n
 
+/-- a hook that works on the writeable clone it was given: the listed entries replace the values of existing keys, new keys
+are added -/
+def overrideArgs (orig a : Node) : Node :=
+  match orig, a with
+  | .map o, .map n =>
+    .map ((o.map fun kv => (kv.1, (Node.lookup kv.1 n).getD kv.2)) ++ n.filter (fun kv => (Node.lookup kv.1 o).isNone))
+  | _, _ => a
+
 partial def runChain : List String → Option String
   | ["chain.allowed", inv, prf, dlgs, now, args, hook, _irrelevant] => runChain ["chain.allowed", inv, prf, dlgs, now, args, hook]
   | ["chain.allowed", inv, prf, dlgs, now, args, hook] => do
@@ -66,6 +74,9 @@ partial def runChain : List String → Option String
       let hookF : Option (Node → Option Node) ←
         if hook == "-" then some none
         else if hook == "!" then some (some (fun _ => none))
+        else if hook.startsWith "~" then
+          -- the hook keeps the arguments it was given and overrides / adds the listed entries
+          (nodeFromStr ((hook.drop 1).toString)).map (fun a => some (fun orig => some (argsToIPLD (overrideArgs orig a))))
         else (nodeFromStr hook).map (fun a => some (fun _ => some (argsToIPLD a)))
       let verdict := match hookF with
         | none => allowed ld now i
